@@ -20,15 +20,19 @@ RULE = (
     "what to_tree() without a mask renders (secrets that are not marked sensitive are compared after decrypting "
     "with the reference cipher because AES output is randomised). Oracle: to_tree(sensitive_mask=m) equals the "
     "expected tree; the independently decoded dumps(fmt, sensitive_mask=m) equals it too; with mask None the "
-    "output equals the plain rendering; additionally no distinctive sensitive string value occurs in the masked "
-    "document bytes. Non-trivial = a non-empty sensitive value below the root (nested / config type / list item)."
+    "output equals the plain rendering, and that plain rendering equals the rendering of a TWIN configuration built "
+    "from the same schema with no field marked sensitive and filled the same way ('without a mask nothing is "
+    "altered': the marks have no effect on unmasked output; digests are compared by shape, secrets by plaintext); "
+    "additionally no distinctive sensitive string value occurs in the masked document bytes. Non-trivial = a "
+    "non-empty sensitive value below the root (nested / config type / list item), or an unmasked rendering in "
+    "which some sensitive field holds a falsy value that is not None ('', 0, False, [])."
 )
 ASSUMPTIONS = [
     "the 'value's length' of a non-string sensitive value is len(str(value)), the generalisation documented by to_tree",
     "item fields of typed scalar lists/dicts are not 'fields of a configuration'; only schema fields carry the flag",
 ]
 REQUIRED = ["sensitive:virtual", "mask:none", "mask:empty", "mask:one-char", "mask:multi", "out:tree", "out:document", "sensitive:nested", "sensitive:list-item",
-            "sensitive:configtype", "sensitive:empty-value", "sensitive:list-of-configs", "sensitive:set-after-declaration", "sensitive-value-embedded-in-plain-field"]
+            "sensitive:configtype", "sensitive:empty-value", "sensitive:list-of-configs", "sensitive:set-after-declaration", "sensitive-value-embedded-in-plain-field", "no-mask:unmarked-twin", "no-mask:falsy-sensitive-value"]
 LEVEL_TEXT = (
     "Generated schemas/values/masks with a model-computed expected tree compared structurally with the masked "
     "rendering (tree and decoded document); kills mutants whose recursion drops the mask, repeats a multi-character "
@@ -89,6 +93,51 @@ def _is_sensitive(node):
     return node["kind"] == "secure"
 
 
+def _first_diff(a, b, keybytes, path="$"):
+    """Where two renderings differ under _same (for messages)."""
+    if isinstance(a, dict) and isinstance(b, dict) and not (set(a) == set(b) == {"method", "ciphertext"}):
+        if set(a) != set(b):
+            return "%s: keys %r vs %r" % (path, sorted(map(str, a)), sorted(map(str, b)))
+        for k in a:
+            if not _same(a[k], b[k], keybytes, True):
+                return _first_diff(a[k], b[k], keybytes, "%s.%s" % (path, k))
+    if isinstance(a, list) and isinstance(b, list) and len(a) == len(b):
+        for i, (x, y) in enumerate(zip(a, b)):
+            if not _same(x, y, keybytes, True):
+                return _first_diff(x, y, keybytes, "%s[%d]" % (path, i))
+    return "%s: %r vs %r" % (path, a, b)
+
+
+def _unmarked(node):
+    kids = []
+    for c in node["children"]:
+        if c["kind"] in ("schema", "configtype", "schemalist"):
+            c = _unmarked(c)
+        if c["kind"] != "method":
+            c = dict(c, sensitive=False, sensitive_late=False)
+        kids.append(c)
+    return dict(node, children=kids)
+
+
+def _any_falsy_sensitive(world, cfg, node=None):
+    cc = world.cc
+    node = node or world.spec
+    for child in node["children"]:
+        kind = child["kind"]
+        if kind in ("virtual", "method"):
+            continue
+        v = cfg[child["key"]]
+        if kind in ("schema", "configtype") and isinstance(v, cc.Config):
+            if _any_falsy_sensitive(world, v, child):
+                return True
+        elif kind == "schemalist" and v and not _is_sensitive(child):
+            if any(_any_falsy_sensitive(world, item, child) for item in v):
+                return True
+        elif _is_sensitive(child) and v is not None and not v:
+            return True
+    return False
+
+
 def _masked(value, mask):
     if not value:
         return None
@@ -97,17 +146,22 @@ def _masked(value, mask):
     return mask
 
 
-def _same(a, b, keybytes):
-    """Equality of two renderings; encrypted secrets are compared by their plaintext."""
+def _same(a, b, keybytes, twin=False):
+    """Equality of two renderings; encrypted secrets are compared by their plaintext. ``twin``: the renderings come from
+    two separately built configurations, whose digests of one plaintext carry a salt of their own each."""
+    if twin and type(a).__name__ == "DigestValue" and type(b).__name__ == "DigestValue":
+        return len(a.salt) == len(b.salt) and len(a.digest) == len(b.digest)  # (a virtual field echoing a sibling's digest)
     if isinstance(a, dict) and isinstance(b, dict):
+        if twin and set(a) == set(b) and {"salt", "digest"} <= set(a):
+            return True
         if set(a) == set(b) == {"method", "ciphertext"} and keybytes:
             try:
                 return c03._ref_decrypt(keybytes, a) == c03._ref_decrypt(keybytes, b)
             except Exception:
                 return False
-        return set(a) == set(b) and all(_same(a[k], b[k], keybytes) for k in a)
+        return set(a) == set(b) and all(_same(a[k], b[k], keybytes, twin) for k in a)
     if isinstance(a, list) and isinstance(b, list):
-        return len(a) == len(b) and all(_same(x, y, keybytes) for x, y in zip(a, b))
+        return len(a) == len(b) and all(_same(x, y, keybytes, twin) for x, y in zip(a, b))
     return trees.tree_eq(a, b)
 
 
@@ -174,34 +228,38 @@ def run_case(case, R):
     mask = case["mask"]
     R.label("mask:" + ("none" if mask is None else "empty" if mask == "" else "one-char" if len(mask) == 1 else "multi"))
     with sandbox.CaseDir() as d:
-        world = worlds.World(cc, spec)
         keyfile = os.path.join(d, "key")
-        cfg = world.schema(key_filename=keyfile)
-        leaves = ops.spec_leaves(spec)
-        skip = {i % max(len(leaves), 1) for i in case["skip"]}
-        for i, (path, nd) in enumerate(leaves):
-            if i in skip:
-                continue
-            for raw in case["populate"].get(".".join(path), []):
-                value = c02.realize_candidate(nd, raw, world.ctx)
-                if c02._emptied(nd, value, raw, case["populate"].get(".".join(path), [])):
+
+        def build(spec):
+            world = worlds.World(cc, spec)
+            cfg = world.schema(key_filename=keyfile)
+            leaves = ops.spec_leaves(spec)
+            skip = {i % max(len(leaves), 1) for i in case["skip"]}
+            for i, (path, nd) in enumerate(leaves):
+                if i in skip:
                     continue
-                try:
-                    ops.set_via(cfg, path, value, "setattr")
-                    break
-                except Exception:
-                    continue
-        # a non-sensitive text field may well CONTAIN the sensitive value of a sibling (a DSN, a note): it is rendered as it is
-        try:
-            if isinstance(cfg.zzct.token, str) and cfg.zzct.token:
-                cfg.zzct["full_path"] = "dsn://user:%s@host/db" % cfg.zzct.token
-                R.label("sensitive-value-embedded-in-plain-field")
-            for item in cfg.zzitems or []:
-                if isinstance(item.secret, str) and item.secret:
-                    item.label = item.secret
-        except Exception:
-            pass
-        c02._sanitize(world, cfg)
+                for raw in case["populate"].get(".".join(path), []):
+                    value = c02.realize_candidate(nd, raw, world.ctx)
+                    if c02._emptied(nd, value, raw, case["populate"].get(".".join(path), [])):
+                        continue
+                    try:
+                        ops.set_via(cfg, path, value, "setattr")
+                        break
+                    except Exception:
+                        continue
+            # a non-sensitive text field may well CONTAIN the sensitive value of a sibling (a DSN, a note): it is rendered as it is
+            try:
+                if isinstance(cfg.zzct.token, str) and cfg.zzct.token:
+                    cfg.zzct["full_path"] = "dsn://user:%s@host/db" % cfg.zzct.token
+                    R.label("sensitive-value-embedded-in-plain-field")
+                for item in cfg.zzitems or []:
+                    if isinstance(item.secret, str) and item.secret:
+                        item.label = item.secret
+            except Exception:
+                pass
+            c02._sanitize(world, cfg)
+            return world, cfg
+        world, cfg = build(spec)
         # virtual fields echo sibling values (bytes, digests, typed proxies): not plain data, so virtual output is only
         # exercised for tree output, never for documents
         virtual = case["virtual"] and case["fmt"] == "tree"
@@ -215,6 +273,21 @@ def run_case(case, R):
         except OSError:
             keybytes = None
         expected = _expect(world, cfg, plain, mask, R)
+        if mask is None:
+            # "without a mask nothing is altered": the same schema with NO field marked sensitive, filled the same way,
+            # renders the same tree (the marks have no effect on output that was not asked to be masked)
+            try:
+                _, twin = build(_unmarked(spec))
+                unmarked = twin.to_tree(virtual=virtual)
+            except Exception:
+                unmarked = None
+            if unmarked is not None:
+                R.label("no-mask:unmarked-twin")
+                if _any_falsy_sensitive(world, cfg):
+                    R.label("no-mask:falsy-sensitive-value")
+                    R.nontrivial = True
+                R.check(_same(plain, unmarked, keybytes, True), "no-mask-no-change", "unmarked-twin",
+                        lambda: "without a mask, the tree differs from that of the same schema without sensitive marks: %s" % _first_diff(unmarked, plain, keybytes))
 
         fmt = case["fmt"]
         if fmt == "tree" or not ops.is_plain(expected, fmt):
